@@ -83,7 +83,7 @@ func (r *Root) Setter(target Gindex, expand bool) (Link, error) {
 		return Identity, nil
 	}
 	if expand {
-		child := ZeroNode(target.Depth())
+		child := ZeroNode(target.Depth() - 1)
 		p := NewPairNode(child, child)
 		return p.Setter(target, expand)
 	} else {
